@@ -66,7 +66,7 @@ func (fc *FuncCtx) oblige(fr *Frame, st *State, kind, label string, goal string,
 	if n := fc.ordinals["name:"+name]; n > 1 {
 		name = fmt.Sprintf("%s@%d", name, n)
 	}
-	o := &Obligation{Name: name, Kind: kind, Func: fr.prefix, Pos: fc.posStr(pos), LogLen: len(fc.u.Log), Goal: goal, PC: st.pc, Desc: desc, Unit: fc.u, Props: fc.props}
+	o := &Obligation{Name: name, Kind: kind, Func: fr.prefix, Pos: fc.posStr(pos), LogLen: len(fc.u.Log), Goal: goal, PC: st.pc, Desc: desc, Unit: fc.u, Props: fc.props, Cases: st.cases}
 	if goal == "true" || st.pc == "false" {
 		o.Structural = true
 		o.StructOK = true
@@ -197,6 +197,7 @@ func (fc *FuncCtx) mergeStates(ins []*State) *State {
 		pcs = append(pcs, s.pc)
 	}
 	out.pc = fc.u.define("pc", "Bool", tOr(pcs...))
+	out.cases = pcs
 	// epoch: if they differ, materialise all keys
 	sameEpoch := true
 	for _, s := range live[1:] {
@@ -869,6 +870,12 @@ func (fc *FuncCtx) execInstr(fr *Frame, st *State, ins ssa.Instruction) {
 		p := fc.toPlace(fr, st, x.X, x.Pos())
 		stt := p.Typ.Underlying().(*types.Struct)
 		f := stt.Field(x.Field)
+		if p.Kind == "obj" && len(p.Path) == 0 && strings.HasPrefix(p.Prefix, "O!") && embeddedObject(f.Type()) {
+			if _, named := p.Typ.(*types.Named); named {
+				fr.vals[x] = fc.objPlace(fc.derivedRef(p.Typ, f.Name(), p.RefTerm), f.Type())
+				return
+			}
+		}
 		np := p
 		np.Path = append(append([]string(nil), p.Path...), f.Name())
 		np.Typ = f.Type()
